@@ -506,3 +506,76 @@ func (in *Input) shadowClass() bool {
 }
 
 func quoteTag(b []byte) string { return strconv.Quote(string(b)) }
+
+// ---------------------------------------------------------------------------------------------
+// classes of the repaired defects (documentation only: status "fixed" entries suppress nothing); they keep the
+// failing cases of distinct defects apart so that each gets its own replay
+
+func refSplits(s string) bool {
+	base := s
+	if i := strings.Index(s, "["); i > 0 {
+		base = s[:i]
+	}
+	return strings.LastIndex(base, ".") > 0
+}
+
+func (t *Ty) mentionsError() bool {
+	if t == nil {
+		return false
+	}
+	return t.K == "error" || t.Elem.mentionsError() || t.Key.mentionsError()
+}
+
+func (in *Input) defectClass() string {
+	tagRef, grouped, errField := false, false, false
+	for g := range in.Groups {
+		grp := &in.Groups[g]
+		last := -1
+		for i := range grp.Specs {
+			if grp.Specs[i].RHS == "sel" || grp.Specs[i].RHS == "local" || (grp.Specs[i].RHS == "raw" && in.coqRHS(&grp.Specs[i]) != "ROther") {
+				last = i
+			}
+		}
+		for i := range grp.Specs {
+			s := &grp.Specs[i]
+			if !s.enabled() || !(s.RHS == "sel" || s.RHS == "local" || s.RHS == "lit") || in.Types[s.Origin].NonStruct != "" {
+				continue
+			}
+			if last >= 0 && last != i && in.coqRHS(&grp.Specs[last]) != in.coqRHS(s) {
+				grouped = true
+			}
+			if s.RHS == "lit" {
+				continue
+			}
+			omit := map[string]bool{}
+			for _, o := range s.Omit {
+				omit[o] = true
+			}
+			repl := parseReplace(s.Replace)
+			for _, f := range in.Types[s.Origin].Fields {
+				if omit[f.Name] {
+					continue
+				}
+				tag := string(f.Tag)
+				if r, ok := repl[f.Name]; ok && len(r) > 1 {
+					tag = strings.Join(r[1:], " ")
+				}
+				if refSplits(tag) {
+					tagRef = true
+				}
+				if f.Ty.mentionsError() {
+					errField = true
+				}
+			}
+		}
+	}
+	switch {
+	case tagRef:
+		return "tag_rendered_as_type_reference"
+	case grouped:
+		return "grouped_declaration_origin"
+	case errField:
+		return "error_typed_field"
+	}
+	return ""
+}
